@@ -7,7 +7,9 @@ The decoder (`newExpr` and the constructors it calls, among them `newColConstExp
 text: their meaning is regenerated as `Gen.newExprAst` / `Gen.exprFoldAst` and proved equal to the spec's reading in
 `QF.Props.C07Decode.gen_expr_decode_semantics` / `gen_expr_fold`. The execution (`Eval`, `tempColName`, `getFunc` and the
 `execute` methods of all expression structs) is regenerated as `Gen.evalFns` / `Gen.tempColNameAst` and proved equal to the
-hand mirror in `QF.Props.C07EvalGen.gen_eval_semantics` / `gen_eval_bookkeeping`; nothing of C07 is compared as text any more. -/
+hand mirror in `QF.Props.C07EvalGen.gen_eval_semantics` / `gen_eval_bookkeeping`; `missingCol` (the check of the column
+references `Eval` makes before it executes anything) is regenerated as `Gen.missingColAst`: `gen_missingcol_semantics`. The link
+to the denotational spec is `QF.Props.C07EndToEnd.gen_eval_end_to_end_partial`. Nothing of C07 is compared as text any more. -/
 theorem tie : Tie.sameAll [] = true := by decide
 
 /-- The default evaluation context (operand type, arity, name ↦ function) is the one the spec's `evalUnary` /
